@@ -125,7 +125,17 @@ func vhBuildProposal(h *vrt.H, k Keeper, ctx sdk.Context, b *vhBitcoin, l *vhLoc
 	proposerStr, err := k.addressCodec.BytesToString(h.PickBytes(h.Bool("msgProposerIsCometProposer"), p.proposer, h.Bytes("otherProposer", 20)))
 	vhMust(err)
 	p.msg = &types.MsgNewEthBlock{Proposer: proposerStr}
-	if h.Choose("nilPayload", 0, 1) == 1 {
+	// one hash-like field of the payload a byte longer/shorter than it should be (every
+	// content): explored against an otherwise well-shaped payload, so the shape choices
+	// below are fixed in those cases (the cases add up instead of multiplying)
+	odd := h.Choose("oddLengthField", 0, 4)
+	choose := func(name string, lo, hi, wellShaped int) int {
+		if odd != 0 {
+			return wellShaped
+		}
+		return h.Choose(name, lo, hi)
+	}
+	if choose("nilPayload", 0, 1, 0) == 1 {
 		p.nilPayload = true
 		return p, ctx
 	}
@@ -138,13 +148,13 @@ func vhBuildProposal(h *vrt.H, k Keeper, ctx sdk.Context, b *vhBitcoin, l *vhLoc
 		txs = append(txs, raw)
 	}
 	p.dequeueOK = true
-	if len(txs) > 0 && h.Choose("dropLastDueTx", 0, 1) == 1 {
+	if len(txs) > 0 && choose("dropLastDueTx", 0, 1, 0) == 1 {
 		txs = txs[:len(txs)-1]
 		p.dequeueOK = false
 	}
 	extra := make([]byte, 33)
 	extra[0] = h.U8("announcedSystemTxs")
-	switch h.Choose("transactionsShape", 0, 2) {
+	switch choose("transactionsShape", 0, 2, 0) {
 	case 0: // nil list (the normal decoding of an empty list)
 		if len(txs) == 0 {
 			txs = nil
@@ -159,22 +169,18 @@ func vhBuildProposal(h *vrt.H, k Keeper, ctx sdk.Context, b *vhBitcoin, l *vhLoc
 	gasReq := []byte{0}                                   // GasRequestType
 	gasReq = append(gasReq, h.Bytes("gasRevenue", 40)...) // height(8) + amount(32)
 	var reqs [][]byte
-	switch h.Choose("gasRequests", 0, 2) {
+	switch choose("gasRequests", 0, 2, 1) {
 	case 1:
 		reqs = [][]byte{gasReq}
 	case 2:
 		reqs = [][]byte{append(gasReq, h.Bytes("gasRevenue2", 40)...)}
 	}
 	// the payload's fields are the proposer's bytes: hash-like fields of the right length equal
-	// to the recorded value or not, or one of them a byte longer/shorter (every content)
+	// to the recorded value or not
 	beaconRoot := h.PickBytes(h.Bool("rightBeacon"), p.beacon, h.Bytes("otherBeacon", 32))
 	parentHash := h.PickBytes(h.Bool("childOfHead"), p.head.BlockHash, h.Bytes("otherParent", 32))
 	recipient := h.PickBytes(h.Bool("recipientIsProposer"), p.proposer, h.Bytes("otherRecipient", 20))
-	maxOdd := 1
-	if h.Thorough() {
-		maxOdd = 4
-	}
-	switch h.Choose("oddLengthField", 0, maxOdd) {
+	switch odd {
 	case 1:
 		beaconRoot = h.Bytes("longBeacon", 33)
 	case 2:
@@ -194,7 +200,7 @@ func vhBuildProposal(h *vrt.H, k Keeper, ctx sdk.Context, b *vhBitcoin, l *vhLoc
 		BlockHash:    h.Bytes("blockHash", 32),
 		Transactions: txs,
 		BeaconRoot:   beaconRoot,
-		BlobGasUsed:  uint64(h.Choose("blobGasUsed", 0, 1)),
+		BlobGasUsed:  uint64(choose("blobGasUsed", 0, 1, 0)),
 		Requests:     reqs,
 	}
 	p.msg.Payload = pl
